@@ -58,10 +58,47 @@ class _FakeDatetimeClass(_real_datetime.datetime):
     def today(cls):
         return cls.now()
 
+    @classmethod
+    def fromtimestamp(cls, t, tz=None):
+        if tz is not None:
+            return _real_datetime.datetime.fromtimestamp(t, tz)
+        u = _real_datetime.datetime(1970, 1, 1) + _real_datetime.timedelta(seconds=t)
+        return u + _real_datetime.timedelta(hours=2)  # the virtual local zone: UTC+2, standard time in effect
 
-_fake_datetime_module = types.SimpleNamespace(
-    datetime=_FakeDatetimeClass, timedelta=_real_datetime.timedelta,
-    date=_real_datetime.date, time=_real_datetime.time)
+
+_fake_datetime_module = types.SimpleNamespace(**{k: v for k, v in vars(_real_datetime).items() if not k.startswith('_')})
+_fake_datetime_module.datetime = _FakeDatetimeClass
+
+
+class _VirtualOsClock(object):
+    """while a command runs, the ``time`` module answers from the same virtual clock as the datetime stub: the instant
+    ENV.now in a zone that is UTC+2 with daylight-saving rules (altzone UTC+3) while standard time is in effect"""
+    NAMES = ('time', 'localtime', 'gmtime', 'timezone', 'altzone', 'daylight', 'tzname')
+
+    def __enter__(self):
+        import calendar
+        import time as _t
+        self.saved = {n: getattr(_t, n) for n in self.NAMES}
+        real_gmtime = _t.gmtime
+        n = ENV.now
+        epoch = calendar.timegm((n.year, n.month, n.day, n.hour, n.minute, n.second, 0, 0, 0)) - 7200
+
+        def gmtime(secs=None):
+            return real_gmtime(epoch if secs is None else secs)
+
+        def localtime(secs=None):
+            st = real_gmtime((epoch if secs is None else secs) + 7200)
+            return _t.struct_time(tuple(st[:8]) + (0,))
+        _t.time = lambda: float(epoch)
+        _t.gmtime, _t.localtime = gmtime, localtime
+        _t.timezone, _t.altzone, _t.daylight, _t.tzname = -7200, -10800, 1, ('VST', 'VDT')
+        return self
+
+    def __exit__(self, *a):
+        import time as _t
+        for k, v in self.saved.items():
+            setattr(_t, k, v)
+        return False
 
 
 class _FakeRandom(object):
@@ -119,6 +156,13 @@ def install_env_stubs():
     pc.datetime = _fake_datetime_module
     pmain.random = _FakeRandom
     emain.datetime = _FakeDatetimeClass
+    # the same virtual clock for any other trashcli module that looks at the time through the datetime module / class
+    for mod in trashcli_modules():
+        for name, val in list(vars(mod).items()):
+            if val is _real_datetime:
+                setattr(mod, name, _fake_datetime_module)
+            elif val is _real_datetime.datetime:
+                setattr(mod, name, _FakeDatetimeClass)
     mi._my_input = _fake_input
     mpl.os_mount_points = _fake_os_mount_points
     _STUBS_INSTALLED = True
@@ -197,7 +241,8 @@ def _call_main(spec):
     code, exc = None, None
     try:
         try:
-            rc = main()
+            with _VirtualOsClock():
+                rc = main()
             code = 0 if rc is None else rc
         except SystemExit as e:
             code = 0 if e.code is None else e.code
